@@ -45,13 +45,24 @@ Definition mk_state (w : world) (nss0 : list ns) (loaded0 : list (dotted * obj))
                     (attrs0 : list ((obj * name) * obj)) (preload : list dotted) : state :=
   fold_left (fun s d => fst (load w d s)) preload (ST nss0 loaded0 attrs0 [] [] [] []).
 
-Fixpoint run_ops (w : world) (idx : index_t) (ops : list op) (s : state) : list string :=
+(* harness-only environment action between calls: the user deletes a name (`del x` in a cell) *)
+Inductive wop := WOp (o : op) | WDel (lvl : nat) (k : dotted).
+Definition ns_remove (k : dotted) (n : ns) : ns := filter (fun kv => negb (dotted_eqb k (fst kv))) n.
+Fixpoint del_at (lvl : nat) (k : dotted) (l : list ns) : list ns :=
+  match l, lvl with
+  | [], _ => []
+  | n :: r, O => ns_remove k n :: r
+  | n :: r, S j => n :: del_at j k r
+  end.
+
+Fixpoint run_ops (w : world) (idx : index_t) (ops : list wop) (s : state) : list string :=
   match ops with
   | [] => []
   | o :: r =>
       let (s', rs) := match o with
-                      | OCall ms => let (s1, b) := auto_import w idx ms s in (s1, show_res b)
-                      | _ => (step w idx s o, "null")
+                      | WOp (OCall ms) => let (s1, b) := auto_import w idx ms s in (s1, show_res b)
+                      | WOp o' => (step w idx s o', "null")
+                      | WDel lvl k => (set_nss (del_at lvl k (nss s)) s, "null")
                       end in
       show_obj [("r", rs); ("st", show_state s')] :: run_ops w idx r s'
   end.
@@ -62,7 +73,7 @@ Definition show_index (i : index_t) : string :=
 Definition run_seq (mods : list (dotted * (bool * list name * bool)))
                    (db forget : list imp) (drop_empty : bool)
                    (nss0 : list ns) (loaded0 : list (dotted * obj)) (attrs0 : list ((obj * name) * obj))
-                   (preload : list dotted) (ops : list op) : string :=
+                   (preload : list dotted) (ops : list wop) : string :=
   let w := mk_world mods in
   let idx := index db forget drop_empty in
   let s0 := mk_state w nss0 loaded0 attrs0 preload in
